@@ -7,8 +7,10 @@ CONSTANTS
   Outcomes = {"sct", "err"}
   MayCancel = FALSE
   WaitForInflight = TRUE
+  Sessions <- FullSessions
+  RecomputeVerdict = FALSE
 SPECIFICATION Spec
 VIEW StateView
-INVARIANTS TypeOK AtMostOncePerLog SuccessSound FailureHonest NeedsAccount CancelSound
+INVARIANTS TypeOK AtMostOncePerLog SuccessSound FailureHonest NeedsAccount CancelSound OnlyAnswersCount OnlySessionLogsContacted
 PROPERTIES Terminates SuccessComplete
 CHECK_DEADLOCK FALSE
